@@ -389,6 +389,40 @@ def report(prop, tier, seed, units, results, findings, wall, meta) -> int:
                     except Exception as ex:
                         bounded_notes.append(f"{u.name}: bounded scenario stand-in crashed: {ex}")
 
+    # thorough tier: additionally execute every unit's concrete scenario script (the replay with an empty model) on the real
+    # code.  These runs are BOUNDED (a handful of schedules / inputs each) and are never counted as proved; a failing scenario
+    # is a concrete failing input (exit 1 of the script), anything else (crash, timeout) is only noted.
+    if tier == "thorough":
+        seen_bodies = set()
+        known_units = {unit_of_ob[n] for n in unit_of_ob for f in findings
+                       if f.get("status", "known") == "known" and n.endswith("/" + f["obligation"])}
+        for r in results:
+            u = unit_by_name[r["unit"]]
+            if u.replay is None or r["undecided"]:
+                continue
+            if u.name in known_units:
+                bounded_notes.append(f"{u.name}: concrete scenario not run (it demonstrates the unit's listed known finding)")
+                continue
+            try:
+                body = u.replay({"name": u.name, "model": {}, "verdict": "scenario", "path": "-"})
+            except Exception as ex:
+                bounded_notes.append(f"{u.name}: scenario script not generated: {ex}")
+                continue
+            if not body or body in seen_bodies:
+                continue
+            seen_bodies.add(body)
+            path = _write_replay_text(prop, u.name + "/scenario", f"# thorough-tier concrete scenario of unit {u.name} (bounded)\n" + body)
+            t1 = time.time()
+            confirmed, rout = run_replay(path)
+            tail = [l for l in rout.splitlines() if l.strip() and " - INFO - " not in l and " - WARNING - " not in l][-1:]
+            bounded_notes.append(f"{u.name}: concrete scenario on the real code {'FAILED' if confirmed else 'passed'} "
+                                 f"({time.time() - t1:.1f}s): {(tail[0][:160] if tail else '')}")
+            if confirmed:
+                with open(path, "a") as f:
+                    f.write("\n# --- output ---\n" + "".join(f"# {l}\n" for l in rout.splitlines()[-30:]))
+                lines.append(f"VIOLATION property={prop} replay={path}")
+                vio_records.append({"obligation": u.name + "/scenario", "model": None, "replay": path, "confirmed": True})
+
     status = 0
     if vio_records:
         status = 1
